@@ -1,4 +1,6 @@
 import TakVerif.Proofs.HashInv
+import TakVerif.Proofs.WFCheck
+import TakVerif.Proofs.MoveRefine
 
 /-! Concrete positions used by the non-vacuity `example`s in `Props/`. -/
 namespace Tak.Ex
@@ -22,5 +24,20 @@ theorem mid_ok : start5.applyAll basis (moves.take 4) = .ok mid := by rfl
 theorem after_ok : start5.applyAll basis moves = .ok after := by rfl
 /-- the slide b1+ (type 7 = SlideUp, one piece) from `mid` is accepted -/
 theorem mid_slide_ok : ∃ q, mid.apply basis ⟨1,0,7,1⟩ = .ok q := ⟨_, by rfl⟩
+
+/-- the position after a1 e5 b1 b2 is well-formed (checked by evaluating `Pos.wfB`) -/
+theorem mid_wf : WF basis mid := Pos.wfB_sound (by decide +kernel)
+theorem after_wf : WF basis after := Pos.wfB_sound (by decide +kernel)
+
+/-- the rule-book successor of `mid` under b1+ -/
+def midSlideSpec : Spec.State := (Spec.step (Spec.abs mid) (Spec.decode ⟨1,0,7,1⟩)).getD default
+
+theorem mid_slide_spec : Spec.step (Spec.abs mid) (Spec.decode ⟨1,0,7,1⟩) = some midSlideSpec := by rfl
+
+theorem mid_slide_limit : StackLimit mid ⟨1,0,7,1⟩ := by
+  intro s' h
+  rw [mid_slide_spec] at h
+  cases h
+  decide +kernel
 
 end Tak.Ex
